@@ -268,3 +268,135 @@ def compare_all(repo, only=None):
           continue
         out.append((spec['name'], path, equal(get_path(sysv, path), w)))
   return out
+
+
+# ------------------------------------------------------------------------------------------------------
+# _get_custom: brax's per-model custom parameters (numeric and tuple <custom> elements of the MJCF)
+CUSTOM_MOCKS = [
+    dict(name='numeric overrides: per-geom elasticity, single-valued body custom, scalar, init_qpos',
+         nbody=4, ngeom=3, nq=5,
+         numeric=[('elasticity', 3), ('constraint_stiffness', 1), ('vel_damping', 1), ('init_qpos', 5), ('constraint_ang_damping', 3)],
+         tuples=[]),
+    dict(name='tuple overrides: elasticity on two of three geoms, a body-typed tuple; single-valued elasticity absent',
+         nbody=3, ngeom=3, nq=2,
+         numeric=[('baumgarte_erp', 1), ('constraint_limit_stiffness', 2)],
+         tuples=[('elasticity', 5, [2, 0]), ('constraint_vel_damping', 1, [1])]),
+    dict(name='no custom elements at all', nbody=3, ngeom=2, nq=1, numeric=[], tuples=[]),
+]
+CUSTOM_DEFAULT = {
+    'ang_damping': (0.0, None), 'vel_damping': (0.0, None), 'baumgarte_erp': (0.1, None), 'spring_mass_scale': (0.0, None),
+    'spring_inertia_scale': (0.0, None), 'joint_scale_pos': (0.5, None), 'joint_scale_ang': (0.2, None), 'collide_scale': (1.0, None),
+    'matrix_inv_iterations': (10, None), 'solver_maxls': (20, None), 'elasticity': (0.0, 'geom'),
+    'constraint_stiffness': (2000.0, 'body'), 'constraint_limit_stiffness': (1000.0, 'body'),
+    'constraint_ang_damping': (0.0, 'body'), 'constraint_vel_damping': (0.0, 'body'),
+}
+
+
+def custom_mock(spec):
+  names = {}
+  adr = 0
+  num_adr, num_size, name_numericadr = [], [], []
+  for i, (nm, n) in enumerate(spec['numeric']):
+    names[100 + i] = nm
+    name_numericadr.append(100 + i)
+    num_adr.append(adr)
+    num_size.append(n)
+    adr += n
+  data = symarr('num', (adr,)) if adr else np.zeros((0,), dtype=object)
+  t_adr, t_size, name_tupleadr, objtype, objid = [], [], [], [], []
+  tadr = 0
+  for i, (nm, ot, ids) in enumerate(spec['tuples']):
+    names[200 + i] = nm
+    name_tupleadr.append(200 + i)
+    t_adr.append(tadr)
+    t_size.append(len(ids))
+    objtype += [ot] * len(ids)
+    objid += list(ids)
+    tadr += len(ids)
+  mj = Struct('MjModel', {
+      'nbody': spec['nbody'], 'ngeom': spec['ngeom'], 'nq': spec['nq'],
+      'name_numericadr': np.array(name_numericadr, dtype=int), 'numeric_size': np.array(num_size, dtype=int),
+      'numeric_adr': np.array(num_adr, dtype=int), 'numeric_data': data,
+      'name_tupleadr': np.array(name_tupleadr, dtype=int), 'tuple_adr': np.array(t_adr, dtype=int),
+      'tuple_size': np.array(t_size, dtype=int), 'tuple_objtype': np.array(objtype, dtype=int),
+      'tuple_objid': np.array(objid, dtype=int), 'tuple_objprm': symarr('tprm', (tadr,)) if tadr else np.zeros((0,), dtype=object)})
+  return mj, names
+
+
+def run_get_custom(repo, mj, names):
+  I = new_interp(repo, reset=False)
+  I.contracts[('brax.io.mjcf', '_get_name')] = lambda m, i: names[int(i)]
+  I.contracts[('brax.io.mjcf', '_check_custom')] = lambda m, c: None
+  return I.apply(fn('brax.io.mjcf', '_get_custom'), [mj], {})
+
+
+def expected_custom(spec, mj):
+  """Reference: scalars stay scalars; geom-typed customs have ngeom entries in geom order; body-typed customs have
+  nbody entries = the per-link values preceded by one entry for the world body; a single value is broadcast; a tuple
+  custom sets the listed objects and leaves the default elsewhere."""
+  m = mj.f
+  data = asarr(m['numeric_data'])
+  over = {}
+  for i, (nm, n) in enumerate(spec['numeric']):
+    a = int(m['numeric_adr'][i])
+    over[nm] = data[a:a + n]
+  E = {}
+  allnames = list(CUSTOM_DEFAULT) + [nm for nm, _ in spec['numeric'] if nm not in CUSTOM_DEFAULT]
+  for nm in allnames:
+    dv, typ = CUSTOM_DEFAULT.get(nm, (None, None))
+    vals = over.get(nm)
+    if typ is None:
+      if vals is None:
+        E[nm] = dv
+      else:
+        E[nm] = vals[0] if len(vals) == 1 else vals
+      continue
+    size = m['ngeom'] if typ == 'geom' else m['nbody'] - 1
+    if vals is None:
+      arr = asarr([dv] * size)
+    elif len(vals) == 1:
+      arr = asarr([vals[0]] * size)
+    else:
+      arr = asarr(list(vals))
+    if typ == 'body':
+      arr = np.concatenate([arr[:1], arr])
+    E[nm] = arr
+  tprm = asarr(m['tuple_objprm'])
+  pos = 0
+  for nm, ot, ids in spec['tuples']:
+    size = m['nbody'] if ot == 1 else m['ngeom']
+    dv = CUSTOM_DEFAULT.get(nm, (0.0, None))[0]
+    arr = asarr([dv] * size)
+    for k, oid in enumerate(ids):
+      arr[oid] = tprm[pos + k]
+    pos += len(ids)
+    E[nm] = arr
+  return E
+
+
+def compare_custom(repo):
+  out = []
+  for spec in CUSTOM_MOCKS:
+    avn.reset_atoms()
+    mj, names = custom_mock(spec)
+    want = expected_custom(spec, mj)
+    got = run_get_custom(repo, mj, names)
+    if not isinstance(got, dict):
+      out.append((spec['name'], '<result>', False))
+      continue
+    for k, w in want.items():
+      g = got.get(k, KeyError)
+      if isinstance(w, (int, float)) and not isinstance(w, bool):
+        try:
+          ga = asarr(g)
+          ok = ga.size == 1 and Rat.lift(ga.ravel()[0]).same(Rat.lift(avn.exact(float(w))))
+        except Exception:  # pylint: disable=broad-except
+          ok = False
+      else:
+        try:
+          ga, wa = asarr(g), asarr(w)
+          ok = (ga.shape == wa.shape or (ga.size == 1 and wa.size == 1)) and same(ga.ravel(), wa.ravel())
+        except Exception:  # pylint: disable=broad-except
+          ok = False
+      out.append((spec['name'], k, ok))
+  return out
